@@ -17,7 +17,9 @@ def case(draw, tier):
                         sort_t_false=True, min_cells=2))
     kind = gm.mesh_kind(desc)
     k = draw(st.integers(0, 9))
-    base = draw(ge.simple(kind, family=CONF_FAMILIES + NONCONF))
+    # ElementHexC1 (64 local functions of degree 6 with third derivatives) costs ~13 s per case: in the quick tier it is
+    # covered by a committed replay on two boxes instead of random generation
+    base = draw(ge.simple(kind, family=CONF_FAMILIES + NONCONF, exclude=('ElementHexC1',) if tier == 'quick' else ()))
     if k == 8 and ge.R[base['cls']]['scalar'] and not ge.R[base['cls']]['family'].startswith('global'):
         el = {'cls': 'ElementVector', 'of': base}
     elif k == 9 and not ge.R[base['cls']]['family'].startswith('global'):
@@ -42,6 +44,11 @@ def multi_facet_dofs(desc):
         e = build_element(leaf)
         if e.facet_dofs >= 2:
             return True
+        # a single facet DOF that carries a direction (normal derivative of the globally defined plate elements) is
+        # built from the same convention -- edges run from the lower to the higher vertex number of a SORTED cell
+        # (element_global.py: "direction swapped due to mesh numbering")
+        if e.facet_dofs >= 1 and 'u_n' in e.dofnames:
+            return True
     return False
 
 
@@ -54,6 +61,14 @@ def trace_kinds(desc):
         return [(inner[0][0], True)]
     info = ge.R[desc['cls']]
     return [(info['conf'] if info['family'] in CONF_FAMILIES else ('functional:' + desc['cls']), False)]
+
+
+def culprit(eld, comp):
+    lv = leaves(eld)
+    d = lv[min(comp, len(lv) - 1)]
+    if 'p' in d:
+        return f"{d['cls']}(p{'>=3' if d['p'] >= 3 else '<3'})"
+    return d['cls']
 
 
 def facet_geometry(m, f):
@@ -133,8 +148,7 @@ def body(c, ctx):
                     raise Unsupported('BFS/HexC1/Quad2G: axis-parallel boxes only')
     tk = trace_kinds(eld)
     lab = ge.label(eld)
-    sig = dict(elem=lab if eld['cls'] != 'ElementComposite' else 'Composite(' + ','.join(sorted(x['cls'] for x in leaves(eld))) + ')',
-               mesh=desc['cls'][:-1])
+    sig = dict(_elem=lab, mesh=desc['cls'][:-1])
     # how differently do the two cells see their shared facets?
     slots = [(int(np.nonzero(m.t2f[:, m.f2t[0, f]] == f)[0][0]), int(np.nonzero(m.t2f[:, m.f2t[1, f]] == f)[0][0])) for f in inner]
     ctx.cls(desc['cls'], 'fam:' + ','.join(sorted(fams)), 'curved' if curved else 'straight')
@@ -158,6 +172,9 @@ def body(c, ctx):
         Xf = np.array([[0.5]]) if bkind == 'line' else (np.array([[1 / 3], [1 / 3]]) if bkind == 'tri' else (np.array([[0.5], [0.5]]) if bkind == 'quad' else Xf))
         W = np.ones(1)
     x = None
+    # quadrilateral faces of general hexahedra are bilinear surfaces: the normal varies over the face, so the
+    # vertex-based normal is only used for simplices/segments; elsewhere the basis' own normals (judged in C10)
+    basis_normals = curved or kind == 'hex'
     if facet_ok:
         b0 = InteriorFacetBasis(m, build_element(eld), side=0, quadrature=(Xf, W))
         b1 = InteriorFacetBasis(m, build_element(eld), side=1, quadrature=(Xf, W))
@@ -176,7 +193,7 @@ def body(c, ctx):
             for j, f in enumerate(find):
                 if kc is None:
                     continue
-                if curved:
+                if basis_normals:
                     n = None
                 else:
                     n, tang = facet_geometry(m, f)
@@ -188,7 +205,7 @@ def body(c, ctx):
                         continue      # handled in route 2 (vertex values, midpoint normal derivatives)
                     ja, jb = va, vb      # facet barycentre value
                     name = 'nonconforming_functional'
-                elif curved:
+                elif basis_normals:
                     if kc == 'value':
                         ja, jb = va, vb
                     elif kc == 'normal':
@@ -214,7 +231,7 @@ def body(c, ctx):
                 if not np.allclose(ja, jb, rtol=0, atol=rel * mag):
                     s0, s1 = slots[list(inner).index(f)] if f in inner else (-1, -1)
                     ctx.fail(name, f'facet {int(f)} (local slots {s0}/{s1}): one-sided traces differ by {np.abs(ja - jb).max():.3e} '
-                             f'(magnitude {mag:.2e}) | component {comp} of {lab}', route='facetbasis', **sig)
+                             f'(magnitude {mag:.2e}) | component {comp} of {lab}', route='facetbasis', culprit=culprit(eld, comp), **sig)
                     return
             # C1 elements: gradient continuity
             base_leaf = leaves(eld)[min(comp, len(leaves(eld)) - 1)]
@@ -235,7 +252,10 @@ def body(c, ctx):
     Nb = ed.shape[0]
     mapping = m.mapping()
     morley = any(k == 'functional:ElementTriMorley' for k, _ in tk)
-    for f in inner[: 12]:
+    # globally defined elements invert a Vandermonde matrix per mesh on first use: one instance per case
+    # (one mesh, so the instance cache is sound here); all others get a fresh instance per call
+    shared_inst = build_element(eld) if glob else None
+    for f in inner[: (4 if glob else 12)]:
         vs = m.facets[:, f]
         P = m.p[:, vs]
         # physical points on the facet: dyadic convex combinations of its vertices (straight facets)
@@ -251,13 +271,22 @@ def body(c, ctx):
         if morley:
             xs = np.hstack([P, P.mean(1, keepdims=True)])      # vertices and the midpoint
         n, tang = facet_geometry(m, f)
+        if P.shape[1] == 4 and m.dim() == 3:
+            # pointwise normal/tangents of the bilinear face from its own parametrisation
+            ds = (P[:, 1:2] - P[:, :1]) + (P[:, 0:1] - P[:, 1:2] + P[:, 2:3] - P[:, 3:4]) * Xf[1]
+            dt = (P[:, 3:4] - P[:, :1]) + (P[:, 0:1] - P[:, 1:2] + P[:, 2:3] - P[:, 3:4]) * Xf[0]
+            nn = np.cross(ds.T, dt.T).T
+            nn = nn / np.linalg.norm(nn, axis=0)
+            pointwise = (nn, [ds / np.linalg.norm(ds, axis=0), dt / np.linalg.norm(dt, axis=0)])
+        else:
+            pointwise = None
         sides = []
         for s in (0, 1):
             cell = int(m.f2t[s, f])
             X = maps.invF1(kind, m.p[:, m.t[:, cell]], xs)
             fields = None
             for i in range(Nb):
-                g = build_element(eld).gbasis(mapping, X, i, tind=np.array([cell], dtype=np.int32))
+                g = (shared_inst or build_element(eld)).gbasis(mapping, X, i, tind=np.array([cell], dtype=np.int32))
                 if fields is None:
                     fields = [dict(value=0.0, grad=0.0) for _ in g]
                 for comp, gf in enumerate(g):
@@ -282,12 +311,20 @@ def body(c, ctx):
                 name = 'nonconforming_functional'
             elif isvec and kc == 'value':
                 ja, jb, name = va, vb, 'conformity_value'
+            elif pointwise is not None and kc in ('normal', 'tangential'):
+                nn, tt = pointwise
+                if kc == 'normal':
+                    ja, jb = (nn * va).sum(0), (nn * vb).sum(0)
+                else:
+                    ja = np.array([(t * va).sum(0) for t in tt])
+                    jb = np.array([(t * vb).sum(0) for t in tt])
+                name = 'conformity_' + kc
             else:
                 ja, jb, name = project(kc, va, n, tang), project(kc, vb, n, tang), 'conformity_' + kc
             if not np.allclose(ja, jb, rtol=0, atol=rel * mag):
                 s0, s1 = slots[list(inner).index(f)]
                 ctx.fail(name, f'facet {int(f)} (local slots {s0}/{s1}): one-sided traces differ by {np.abs(np.asarray(ja) - np.asarray(jb)).max():.3e} '
-                         f'(magnitude {mag:.2e}) | component {comp} of {lab}', route='cells', **sig)
+                         f'(magnitude {mag:.2e}) | component {comp} of {lab}', route='cells', culprit=culprit(eld, comp), **sig)
                 return
 
 
@@ -301,9 +338,9 @@ PROP = Prop(
           'evaluates gbasis in both neighbours at independently inverted reference points -- must agree in the element\'s sense '
           '(value, u.n, tangential part, n.S.n, defining functionals, gradients for C1). Non-trivial: a facet seen through '
           'different local slots by its two cells, or mirrored / renumbered mesh'),
-    assumptions=['sort_t=False triangle meshes with several DOFs per facet are outside the claim (property text, source comments)',
+    assumptions=['sort_t=False triangle meshes with several DOFs per facet, or with a direction-carrying facet DOF (normal derivatives of the plate elements), are outside the claim (property text, source comments)',
                  'ElementGlobal family: straight cells of quality >= 0.05, relative tolerance 1e-7; BFS/HexC1/Quad2G on axis-parallel boxes',
                  'prisms have no facet bases; ElementTriN3 is judged through the cell-based route only',
                  'curved meshes: facet-basis route only, normals taken from the basis (judged in C10)'],
-    subs=[Sub('continuity', body, strategy=case, quick=700, thorough=15000)],
+    subs=[Sub('continuity', body, strategy=case, quick=2400, thorough=30000)],
     design_ref='DESIGN.md section 6, C03')
